@@ -207,6 +207,16 @@ pub fn check_graph(c: &GraphCase, obs: &mut Obs) -> Result<(), String> {
 
 fn decode_graph(t: &mut Tape) -> GraphCase {
     let names = ["a.js", "b.js", "c.js", "d.fn", "e.fn", "f.js", "g.fn", "h.js"];
+    if t.chance(1, 30) {
+        // a long dependency chain with the permissioned node at a generated depth
+        let depth = 10 + t.pick(120);
+        let bad = t.pick(depth);
+        let mut nodes = vec![Node { name: "a.js".into(), kind: 0, perm: 0, deps: vec!["n0.fn".into()] }];
+        for i in 0..depth {
+            nodes.push(Node { name: format!("n{}.fn", i), kind: 1, perm: if i == bad { 2 } else { 0 }, deps: if i + 1 < depth { vec![format!("n{}.fn", i + 1)] } else { vec![] } });
+        }
+        return GraphCase { nodes, requests: vec![("a".into(), [0u8, 1, 2, 3][t.pick(4)])] };
+    }
     let n = 1 + t.pick(8);
     let mut nodes = vec![];
     for i in 0..n {
@@ -361,11 +371,11 @@ pub fn check_args(c: &ArgCase, obs: &mut Obs) -> Result<(), String> {
 
 fn decode_args(t: &mut Tape) -> ArgCase {
     let atoms = ["\"", "'", "`", "\\", "$", "$1", "$$", "${x}", "&", ",", ")", "(", "{", "}", "\t", "\u{1}", "\u{7f}", "\u{2028}", "\u{2029}", "é", "😀", " ", "</script>", "\\n", "\\\"", "//", "/*", "*/", "+js(", "#", "##", "@"];
-    let n = t.pick(5);
+    let n = if t.chance(1, 25) { 8 + t.pick(8) } else { t.pick(5) };
     let mut values = vec![];
     let mut spelling = vec![];
     for _ in 0..n {
-        let k = 1 + t.pick(6);
+        let k = if t.chance(1, 40) { 200 + t.pick(3000) } else { 1 + t.pick(6) };
         let mut v = String::new();
         for _ in 0..k {
             match t.pick(8) {
